@@ -20,11 +20,19 @@ RULE = ('Hypothesis draws a property package of 1-6 chemicals (Water, organics, 
         'P-Q, binary x/y with T or P, multi_stream reuse, Stream or MultiStream feed); phase_split (MultiStream over any '
         'non-empty subset of s,l,g,S,L, fresh or dirty outlets, wrong outlet count); chemical_splits (a,b or a,mixed); '
         'material_balance (flow balance, exact or least-squares, 1-4 variable inlets with a constructed diagonally '
-        'dominant composition matrix and positive true factors). Oracles are NumPy computations on dense snapshots '
+        'dominant composition matrix and positive true factors). Cross-package variants: the outlets of mix_and_split '
+        'and of the moisture helpers (top only, bottom only, both), the outlets of phase_split, and the multi_stream + '
+        'outlets of the vle/lle wrappers may live on another Chemicals object over the same species (reversed order, or '
+        'rotated with one extra chemical); results are compared by CAS. Oracles are NumPy computations on dense snapshots '
         'taken before the call. Non-trivial: non-empty feed (partition: 0<phi<1 or forced chemicals; moisture: dry '
         'solids present). Distinct by (helper, package, mode flags, zero patterns, roles, spec kinds).')
 ASSUMPTIONS = [
-    'all streams of one call share one property package, which is also the settings default',
+    'inlets of one call share one property package; outlets are on the same package or (drawn) on a permuted / '
+    'superset package of the same species; the settings default is the top / retentate / outlet package',
+    'split vectors are indexed like the top (retentate) outlet, on which split_to is invoked',
+    'lle with multi_stream/outlets on another package than the feed only with efficiency = 1 (the bypass term is '
+    'positional in the feed order); partition, chemical_splits and material_balance use positional arrays of one '
+    'package and get no cross-package variant',
     'flows are finite and non-negative; K in [1e-3, 1e3]; moisture in (0, 0.95); efficiency in [0, 1]',
     'outlets are fresh, preloaded with unrelated data (must be overwritten), or reused by a second call with the same roles',
     'material_balance: composition matrix on the chosen chemicals is strictly diagonally dominant after a row '
@@ -35,7 +43,9 @@ ASSUMPTIONS = [
     'adjust_moisture_content on MultiStreams: both streams are MultiStreams and the moisture is held in phase l',
 ]
 REQUIRED_CELLS = {
-    'quick': ['mix_split:scalar', 'mix_split:array', 'mix_split:reuse',
+    'quick': ['mix_split:scalar', 'mix_split:array', 'mix_split:reuse', 'mix_split:xpkg=bottom', 'mix_split:xpkg=top',
+              'mix_split:xpkg=both', 'moisture:xpkg=bottom', 'moisture:xpkg=top', 'moisture:xpkg=both',
+              'phase_split:xpkg', 'lle:xpkg', 'vle:xpkg',
               'moisture:via=adjust', 'moisture:via=mix_split', 'moisture:sufficient', 'moisture:insufficient,strict',
               'moisture:insufficient,lenient', 'moisture:reached', 'moisture:kind=M', 'moisture:ID=other',
               'partition:mode=fresh', 'partition:mode=reuse', 'partition:mode=inplace', 'partition:phi=mid',
@@ -93,22 +103,61 @@ _thermos = {}
 
 
 def thermo(pid):
+    """Cached Thermo of a pool package; 'pid~r' / 'pid~x' are the same species on ANOTHER Chemicals object:
+    ~r reversed order, ~x rotated by one with one extra chemical inserted (a superset)."""
     th = _thermos.get(pid)
     if th is None:
-        names, locked = POOL[pid]
+        names, locked = pool_entry(pid)
         if 'Solids' in names:
             chems = [chem.chemical('Solids', default=True, search_db=False, phase='s') if n == 'Solids'
                      else chem.chemical(n, **({'phase': locked[n]} if n in locked else {})) for n in names]
             th = tmo.Thermo(tmo.Chemicals(chems))
             runner.register_chemicals(th.chemicals)
         else:
-            th = chem.thermo_of(names, locked=locked)
+            th = chem.thermo_of(names, locked=locked, key=('C20', pid))   # own key: always a distinct Chemicals object
         _thermos[pid] = th
     return th
 
 
+def pool_entry(pid):
+    base, _, variant = pid.partition('~')
+    names, locked = POOL[base]
+    names = list(names)
+    if variant == 'r':
+        names = names[::-1]
+    elif variant == 'x':
+        extra = 'Propanol' if 'Propanol' not in names else 'Glycerol'
+        names = names[1:] + names[:1]
+        names.insert(1, extra)
+    return tuple(names), locked
+
+
 def names_of(pid):
-    return list(POOL[pid][0])
+    return list(pool_entry(pid)[0])
+
+
+def cas_of(pid):
+    return list(thermo(pid).chemicals.CASs)
+
+
+def by_cas(s, cas):
+    """Total molar flows of stream ``s`` as an array in the order of the CAS list ``cas`` (plain NumPy on the dense
+    snapshot); chemicals of the stream that are not in ``cas`` are returned separately (they must stay empty)."""
+    a = tot(s)
+    own = list(s.chemicals.CASs)
+    pos = {c: i for i, c in enumerate(own)}
+    out = np.array([a[pos[c]] if c in pos else 0.0 for c in cas], float)
+    extra = np.array([a[i] for i, c in enumerate(own) if c not in set(cas)], float)
+    return out, extra
+
+
+def place(flows, cas, th):
+    """Flow vector given in the order of ``cas`` rearranged to the chemical order of package ``th``."""
+    pos = {c: i for i, c in enumerate(th.chemicals.CASs)}
+    out = np.zeros(len(pos))
+    for c, v in zip(cas, flows):
+        out[pos[c]] = v
+    return out
 
 
 # ---------------------------------------------------------------------------
@@ -187,13 +236,33 @@ def check_nonneg(ctx, a, scale, sig, what):
 
 # ---------------------------------------------------------------------------
 # mix_and_split
+XPKG = ['none', 'none', 'none', 'bottom', 'top', 'both']     # which outlets live on another Chemicals object
+
+
+def outlet_packages(ch, pid, label='xpkg'):
+    """(top package id, bottom package id) for a drawn cross-package configuration.  'top'/'both': the top outlet
+    (receiver of the mix, owner of the split vector) is on a permuted / superset package of the inlets' species;
+    'bottom'/'both': the bottom outlet is on another package than the top outlet."""
+    x = ch.choice(label, XPKG)
+    if x == 'none': return x, pid, pid
+    v = ch.choice(label + '.variant', ['r', 'x'])
+    o = 'x' if v == 'r' else 'r'
+    if x == 'bottom': return x, pid, f'{pid}~{v}'
+    if x == 'top': return x, f'{pid}~{v}', f'{pid}~{v}'
+    return x, f'{pid}~{v}', f'{pid}~{o}'
+
+
 def prop_mix_split(ch, ctx):
     pid = ch.choice('pkg', MIXPK)
-    th = thermo(pid); tmo.settings.set_thermo(th)
+    th = thermo(pid)
     n = len(names_of(pid))
+    cas = cas_of(pid)
     outs = ch.choice('outs', ['fresh', 'fresh', 'dirty', 'reuse'])
-    top = draw_outlet(ch, 'top', th, n, outs == 'dirty')
-    bottom = draw_outlet(ch, 'bottom', th, n, outs == 'dirty')
+    xp, tpid, bpid = outlet_packages(ch, pid)
+    tht, thb = thermo(tpid), thermo(bpid)
+    tmo.settings.set_thermo(tht)
+    top = draw_outlet(ch, 'top', tht, len(names_of(tpid)), outs == 'dirty')
+    bottom = draw_outlet(ch, 'bottom', thb, len(names_of(bpid)), outs == 'dirty')
     ncall = 2 if outs == 'reuse' else 1
     for c in range(ncall):
         nin = ch.int(f'c{c}.n', 1, 4)
@@ -202,25 +271,37 @@ def prop_mix_split(ch, ctx):
         skind, split = draw_split(ch, f'c{c}', n)
         before = [arr2(s) for s in ins]
         F = sum(b.sum(axis=0) for b in before)
-        sv = np.ones(n) * np.array(split, float)
+        sv = np.ones(n) * np.array(split, float)               # per chemical of the inlets' package (CAS order `cas`)
         multi = any(d[1][0] == 'M' for d in drawn)
-        region = f'outs={outs},call={c},multi={int(multi)},split={"array" if skind == "array" else "scalar"}'
+        region = (f'outs={outs},call={c},multi={int(multi)},split={"array" if skind == "array" else "scalar"},'
+                  f'xpkg={xp}')
         ctx.cell('mix_split:' + ('array' if skind == 'array' else 'scalar'))
+        ctx.cell('mix_split:xpkg=' + xp)
         if c: ctx.cell('mix_split:reuse')
         if multi: ctx.cell('mix_split:multi-inlet')
-        arg = np.array(split, float) if skind == 'array' else split
+        if skind == 'array':
+            # the split vector is indexed like the top outlet (split_to is called on it); species absent from the
+            # inlets get 0.5
+            arg = np.full(len(tht.chemicals), 0.5)
+            pos = {k: i for i, k in enumerate(tht.chemicals.CASs)}
+            for k, v in zip(cas, sv): arg[pos[k]] = v
+        else:
+            arg = split
         ctx.call('mix_and_split', sep.mix_and_split, ins, top, bottom, arg, region=region)
         scale = max(1.0, float(F.max()))
-        t, b = tot(top), tot(bottom)
+        (t, te), (b, be) = by_cas(top, cas), by_cas(bottom, cas)
         check_close(ctx, t + b, F, scale, f'mix_and_split|{region}|balance', 'top+bottom vs sum of inlets',
                     metric='mix_split:balance')
         check_close(ctx, t, F * sv, scale, f'mix_and_split|{region}|target', 'top vs split*feed', metric='mix_split:top')
         check_nonneg(ctx, np.concatenate([t, b]), scale, f'mix_and_split|{region}|negative', 'outlets')
+        if te.any() or be.any():
+            ctx.fail(f'mix_and_split|{region}|foreign-chemical', f'species absent from the inlets appear in the outlets: '
+                     f'top {te.tolist()} bottom {be.tolist()}')
         for k, (s, b0) in enumerate(zip(ins, before)):
             if not np.array_equal(arr2(s), b0):
                 ctx.fail(f'mix_and_split|{region}|inlet-modified', f'inlet {k} changed')
         if F.any():
-            ctx.nontriv(['mix_split', pid, outs, c, skind, [d[1] for d in drawn],
+            ctx.nontriv(['mix_split', pid, tpid, bpid, outs, c, skind, [d[1] for d in drawn],
                          zp(sv) if skind == 'array' else None])
 
 
@@ -250,6 +331,11 @@ def prop_moisture(ch, ctx):
     kind = 'S'
     if via == 'adjust' and ch.int('multi', 0, 4) == 0: kind = 'M'
     notw = np.arange(n) != w
+    cas = cas_of(pid)
+    # retentate / permeate on another Chemicals object (Stream pairs only; the helper addresses both by name / CAS)
+    xp, rpid, ppid = outlet_packages(ch, pid) if kind == 'S' else ('none', pid, pid)
+    thr, thp = thermo(rpid), thermo(ppid)
+    tmo.settings.set_thermo(thr)
 
     if via == 'adjust':
         r = np.array(ch.flows('ret', n), float)
@@ -267,7 +353,7 @@ def prop_moisture(ch, ctx):
             frac = ch.float('frac', 0.0, 0.999); share = ch.float('share', 0.0, 1.0)
             r[w] = need * frac * share; p[w] = need * frac * (1. - share)
         if kind == 'S':
-            ret = mk(th, r, 'l', 300., 101325.); perm = mk(th, p, 'l', 300., 101325.)
+            ret = mk(thr, place(r, cas, thr), 'l', 300., 101325.); perm = mk(thp, place(p, cas, thp), 'l', 300., 101325.)
         else:
             # non-moisture material of each stream sits in phase s or l (drawn), moisture in l
             rs = np.array(ch.draw('ret.in_s', _mask(n)), float) * notw
@@ -310,22 +396,29 @@ def prop_moisture(ch, ctx):
         ins = [mk(th, f, 'l', 300. + 5 * i, 101325.) for i, f in enumerate(flows)]
         F = sum(flows)
         ret0 = F * sv; perm0 = F - ret0
-        ret = tmo.Stream(None, thermo=th); perm = tmo.Stream(None, thermo=th)
-        arg = float(sv[0]) if sk == 'scalar' else sv
+        ret = tmo.Stream(None, thermo=thr); perm = tmo.Stream(None, thermo=thp)
+        if sk == 'scalar':
+            arg = float(sv[0])
+        else:                                        # indexed like the retentate (receiver of the mix)
+            arg = np.full(len(thr.chemicals), 0.5)
+            arg[:] = place(sv, cas, thr) + 0.5 * (place(np.ones(n), cas, thr) == 0)
         call = lambda: sep.mix_and_split_with_moisture_content(ins, ret, perm, arg, mc, ID, strict)
         site = 'mix_and_split_with_moisture_content'
         skey = [[zp(f) for f in flows], sk, zp(sv)]
 
     total0 = ret0 + perm0
-    region = f'kind={kind},ID={idk},sufficient={int(sufficient)},strict={strict}'
+    region = f'kind={kind},ID={idk},sufficient={int(sufficient)},strict={strict}' + (f',xpkg={xp}' if xp != 'none' else '')
     ctx.cell('moisture:via=' + via); ctx.cell('moisture:kind=' + kind); ctx.cell('moisture:ID=' + idk)
+    ctx.cell('moisture:xpkg=' + xp)
     scale = max(1.0, float(total0.max()), float(need))
     raised = False
     try:
         ctx.call(site, call, allowed=(InfeasibleRegion,), region=region)
     except InfeasibleRegion as e:
         raised = True
-    r1, p1 = tot(ret), tot(perm)
+    (r1, r1x), (p1, p1x) = by_cas(ret, cas), by_cas(perm, cas)
+    if r1x.any() or p1x.any():
+        ctx.fail(f'{site}|{region}|foreign-chemical', f'species absent from the inputs appear: {r1x.tolist()} {p1x.tolist()}')
     if sufficient:
         ctx.cell('moisture:sufficient')
         if raised:
@@ -355,9 +448,9 @@ def prop_moisture(ch, ctx):
         ctx.cell('moisture:reached')
         if not abs(achieved - mc) <= tol:
             ctx.fail(f'{site}|{region}|target', f'moisture fraction {achieved!r}, requested {mc!r}')
-        ctx.nontriv(['moisture', via, pid, kind, idk, str(strict), skey])
+        ctx.nontriv(['moisture', via, pid, rpid, ppid, kind, idk, str(strict), skey])
     elif not sufficient:
-        ctx.nontriv(['moisture-clip', via, pid, kind, idk, skey])
+        ctx.nontriv(['moisture-clip', via, pid, rpid, ppid, kind, idk, skey])
 
 
 def _mask(n):
@@ -525,24 +618,39 @@ def prop_lle(ch, ctx):
     use_ms = ch.bool('multi_stream')
     alias = (not use_ms) and ch.int('alias', 0, 2) == 0     # biosteam SLLECentrifuge: lle(top, top, bottom, ...)
     ncall = 1 if alias else ch.choice('ncall', [1, 1, 2])
-    top = tmo.Stream(None, thermo=th); bottom = tmo.Stream(None, thermo=th)
-    ms = tmo.MultiStream(None, phases=('l', 'L'), thermo=th) if use_ms else None
+    # multi_stream and outlets on another Chemicals object than the feed: ms.copy_like(feed) maps by CAS and the
+    # outlets are filled positionally from the multi_stream; the bypass term (1-eff)/2*feed.mol is positional in the
+    # FEED's order, so this configuration is only generated with efficiency = 1
+    xms = ch.choice('xms', ['none', 'none', 'none', 'r', 'x']) if use_ms else 'none'
+    opid = pid if xms == 'none' else f'{pid}~{xms}'
+    tho = thermo(opid)
+    cas = cas_of(pid)
+    if xms != 'none': tmo.settings.set_thermo(tho)
+    top = tmo.Stream(None, thermo=tho); bottom = tmo.Stream(None, thermo=tho)
+    ms = tmo.MultiStream(None, phases=('l', 'L'), thermo=tho) if use_ms else None
     for c in range(ncall):
         fl = ch.flows(f'c{c}.feed', n, -2, 2)
         T = ch.float(f'c{c}.T', 290., 350.)
         tc = ch.choice(f'c{c}.top_chemical', [None] + names)
-        eff = ch.choice(f'c{c}.eff.special', [1.0, 1.0, 0.0, None, None])
-        if eff is None: eff = ch.float(f'c{c}.eff', 0.0, 1.0)
+        if xms != 'none':
+            eff = 1.0
+        else:
+            eff = ch.choice(f'c{c}.eff.special', [1.0, 1.0, 0.0, None, None])
+            if eff is None: eff = ch.float(f'c{c}.eff', 0.0, 1.0)
         feed = mk(th, fl, 'l', T, 101325.)
         if alias: top = feed
         F = np.array(fl, float)
-        region = f'alias={int(alias)},ms={int(use_ms)},call={c},eff={"1" if eff == 1 else "<1"},tc={int(tc is not None)}'
+        region = (f'alias={int(alias)},ms={int(use_ms)},call={c},eff={"1" if eff == 1 else "<1"},tc={int(tc is not None)}'
+                  + (',xpkg=1' if xms != 'none' else ''))
+        if xms != 'none': ctx.cell('lle:xpkg')
         if use_ms: ctx.cell('lle:multi_stream')
         if alias: ctx.cell('lle:alias')
         if eff < 1: ctx.cell('lle:eff<1')
         if c: ctx.cell('lle:second-call')
         solver_call(ctx, 'lle', 'lle solver', sep.lle, feed, top, bottom, tc, eff, ms, region=region)
-        t, b = tot(top), tot(bottom)
+        (t, tx), (b, bx) = by_cas(top, cas), by_cas(bottom, cas)
+        if tx.any() or bx.any():
+            ctx.fail(f'lle|{region}|foreign-chemical', f'species absent from the feed: {tx.tolist()} {bx.tolist()}')
         scale = max(1.0, float(F.max()))
         check_close(ctx, t + b, F, scale, f'lle|{region}|balance', 'top+bottom vs feed', metric='lle:balance')
         check_nonneg(ctx, np.concatenate([t, b]), scale, f'lle|{region}|negative', 'outlets')
@@ -551,7 +659,8 @@ def prop_lle(ch, ctx):
         if top.T != T or bottom.T != T:
             ctx.fail(f'lle|{region}|T', f'outlet temperatures {top.T!r}, {bottom.T!r}, feed {T!r}')
         if use_ms:
-            m = arr2(ms)
+            pos = {k: i for i, k in enumerate(ms.chemicals.CASs)}
+            m = arr2(ms)[:, [pos[k] for k in cas]]
             check_close(ctx, m.sum(axis=0), F, scale, f'lle|{region}|multi_stream-balance', 'multi_stream total vs feed')
             # the multi_stream holds the equilibrium phases; outlets are eff*phase + (1-eff)/2*feed
             mix = (1. - eff) / 2. * F
@@ -565,7 +674,7 @@ def prop_lle(ch, ctx):
         two = bool(t.any() and b.any())
         if two and eff == 1: ctx.cell('lle:two-phase')
         if F.any():
-            ctx.nontriv(['lle', pid, alias, use_ms, c, zp(fl), tc, 0 if eff == 0 else 1 if eff == 1 else 0.5, two])
+            ctx.nontriv(['lle', pid, xms, alias, use_ms, c, zp(fl), tc, 0 if eff == 0 else 1 if eff == 1 else 0.5, two])
 
 
 # ---------------------------------------------------------------------------
@@ -578,8 +687,16 @@ def prop_vle(ch, ctx):
     use_ms = ch.bool('multi_stream')
     ncall = ch.choice('ncall', [1, 1, 2])
     dirty = ch.int('dirty', 0, 3) == 0
-    vap = draw_outlet(ch, 'vap', th, n, dirty); liq = draw_outlet(ch, 'liq', th, n, dirty)
-    ms = tmo.MultiStream(None, phases=('l', 'g'), thermo=th) if use_ms else None
+    # multi_stream and outlets on another Chemicals object than the feed (ms.copy_like(feed) maps by CAS, the outlets
+    # are filled positionally from the multi_stream)
+    xms = ch.choice('xms', ['none', 'none', 'none', 'r', 'x']) if use_ms else 'none'
+    opid = pid if xms == 'none' else f'{pid}~{xms}'
+    tho = thermo(opid)
+    cas = cas_of(pid)
+    if xms != 'none': tmo.settings.set_thermo(tho)
+    no = len(names_of(opid))
+    vap = draw_outlet(ch, 'vap', tho, no, dirty); liq = draw_outlet(ch, 'liq', tho, no, dirty)
+    ms = tmo.MultiStream(None, phases=('l', 'g'), thermo=tho) if use_ms else None
     for c in range(ncall):
         fk = ch.choice(f'c{c}.feed.kind', ['l', 'l', 'l', 'g', 'M'])
         Tf = ch.float(f'c{c}.feed.T', 290., 440.)
@@ -611,12 +728,16 @@ def prop_vle(ch, ctx):
             if spec[1] == 'P': kw['P'] = P
             else: kw['T'] = T
         f_before = arr2(feed)
-        region = f'spec={"xy" if spec[0] in "xy" else spec},feed={fk},ms={int(use_ms)},call={c},dirty={int(dirty)}'
+        region = (f'spec={"xy" if spec[0] in "xy" else spec},feed={fk},ms={int(use_ms)},call={c},dirty={int(dirty)}'
+                  + (',xpkg=1' if xms != 'none' else ''))
         ctx.cell('vle:spec=' + ('xy' if spec[0] in 'xy' else spec))
+        if xms != 'none': ctx.cell('vle:xpkg')
         if use_ms: ctx.cell('vle:multi_stream')
         if c: ctx.cell('vle:second-call')
         solver_call(ctx, 'vle', f'vle solver ({spec})', sep.vle, feed, vap, liq, multi_stream=ms, region=region, **kw)
-        g, l = tot(vap), tot(liq)
+        (g, gx), (l, lx) = by_cas(vap, cas), by_cas(liq, cas)
+        if gx.any() or lx.any():
+            ctx.fail(f'vle|{region}|foreign-chemical', f'species absent from the feed: {gx.tolist()} {lx.tolist()}')
         scale = max(1.0, float(F.max()))
         check_close(ctx, g + l, F, scale, f'vle|{region}|balance', 'vap+liq vs feed', metric='vle:balance')
         check_nonneg(ctx, np.concatenate([g, l]), scale, f'vle|{region}|negative', 'outlets')
@@ -627,7 +748,8 @@ def prop_vle(ch, ctx):
         if vap.T != liq.T or vap.P != liq.P:
             ctx.fail(f'vle|{region}|TP', f'outlet conditions differ: {vap.T!r},{liq.T!r} / {vap.P!r},{liq.P!r}')
         if use_ms:
-            m = arr2(ms)
+            pos = {k: i for i, k in enumerate(ms.chemicals.CASs)}
+            m = arr2(ms)[:, [pos[k] for k in cas]]
             pi = {p: k for k, p in enumerate(ms.phases)}
             check_close(ctx, m[pi['g']], g, scale, f'vle|{region}|multi_stream', 'multi_stream gas row vs vap')
             check_close(ctx, m[pi['l']], l, scale, f'vle|{region}|multi_stream', 'multi_stream liquid row vs liq')
@@ -636,7 +758,7 @@ def prop_vle(ch, ctx):
         two = bool(g.any() and l.any())
         if two: ctx.cell('vle:two-phase')
         if F.any():
-            ctx.nontriv(['vle', pid, spec, fk, use_ms, c, dirty, fkey, two])
+            ctx.nontriv(['vle', pid, xms, spec, fk, use_ms, c, dirty, fkey, two])
 
 
 # ---------------------------------------------------------------------------
@@ -652,10 +774,16 @@ def prop_phase_split(ch, ctx):
     dirty = ch.bool('dirty')
     wrong = ch.int('wrong_count', 0, 7) == 0
     nout = len(phases) + (ch.choice('delta', [-1, 1, 2]) if wrong else 0)
-    outlets = [draw_outlet(ch, f'out{k}', th, n, dirty) for k in range(max(nout, 0))]
+    # each outlet may live on another Chemicals object (copy_like documents cross-package copies)
+    opk = [ch.choice(f'out{k}.pkg', ['same', 'same', 'r', 'x']) for k in range(max(nout, 0))]
+    opid = [pid if v == 'same' else f'{pid}~{v}' for v in opk]
+    outlets = [draw_outlet(ch, f'out{k}', thermo(q), len(names_of(q)), dirty) for k, q in enumerate(opid)]
+    xp = any(v != 'same' for v in opk)
+    cas = cas_of(pid)
     f_before = arr2(feed)
     want_order = sorted(phases)            # "alphabetical order" of the docstring (ASCII: capitals first)
-    region = f'nph={min(len(phases), 3)},dirty={int(dirty)},wrong={int(wrong)}'
+    region = f'nph={min(len(phases), 3)},dirty={int(dirty)},wrong={int(wrong)},xpkg={int(xp)}'
+    if xp: ctx.cell('phase_split:xpkg')
     if wrong:
         ctx.cell('phase_split:wrong-count')
         o_before = [arr2(o) for o in outlets]
@@ -679,7 +807,9 @@ def prop_phase_split(ch, ctx):
         want = np.array(rows[phases.index(p)], float)
         if isinstance(o, tmo.MultiStream) or o.phase != p:
             ctx.fail(f'phase_split|{region}|phase', f'outlet {k} has phase {getattr(o, "phase", None)!r}, expected {p!r}')
-        got = tot(o); total += got
+        got, gx = by_cas(o, cas); total += got
+        if gx.any():
+            ctx.fail(f'phase_split|{region}|foreign-chemical', f'outlet {k}: species absent from the feed: {gx.tolist()}')
         if not np.array_equal(got, want):
             ctx.fail(f'phase_split|{region}|flows', f'outlet {k} ({p}) holds {got.tolist()}, feed phase holds {want.tolist()}')
         if o.T != T or o.P != P:
@@ -687,7 +817,7 @@ def prop_phase_split(ch, ctx):
     if not np.array_equal(total, f_before.sum(axis=0)) and not np.allclose(total, f_before.sum(axis=0), rtol=1e-12, atol=0):
         ctx.fail(f'phase_split|{region}|balance', 'sum of outlets differs from feed')
     if f_before.any():
-        ctx.nontriv(['phase_split', pid, sorted(phases), [zp(r) for r in rows], dirty])
+        ctx.nontriv(['phase_split', pid, opk, sorted(phases), [zp(r) for r in rows], dirty])
 
 
 # ---------------------------------------------------------------------------
